@@ -2,7 +2,7 @@
    Proved here: the sender-side mechanisms (staleness test, resend flag, dead references); that each
    Unreliable/TimeSensitive fragment occurs at most once in the emitted frames is checked on the
    implementation's frames by the oracle and through the model correspondence (see DESIGN.md). *)
-From UF Require Import Consts Base Frame Sender Heap FrameQueue HalfConn HcLemmas.
+From UF Require Import Consts Base Frame Sender Heap FrameQueue HalfConn HcLemmas ResendKept HcTotal.
 
 (* a packet leaves the send queue with the next sequence id, never as a stale TimeSensitive packet, and is
    marked for retransmission exactly when its mode is Persistent or Reliable *)
@@ -44,5 +44,17 @@ Theorem C12_dead_entry_not_resent :
     resend_loop (S f) e = resend_loop f (mkEs (set_rq (es_h e) rq') (es_ip e) (es_out e)).
 Proof. exact resend_loop_skips_dead. Qed.
 Print Assumptions C12_dead_entry_not_resent.
+
+
+(* the retransmission obligation is never dropped: a fragment that is scheduled for (re)transmission — in the
+   resend queue, or in the pending queue with the resend flag — stays scheduled through EVERY sequence of
+   HalfConnection operations (sends, receives, steps, flushes, frames with any contents) until it has been
+   acknowledged or its packet has been released from the send window (ResendKept.v) *)
+Theorem C12_retransmission_kept :
+  forall u f ops h,
+    emitted u (h_snd h) -> sched u f h ->
+    let h' := fold_left hc_apply ops h in sched u f h' \/ fin u f (h_snd h').
+Proof. exact retransmission_kept. Qed.
+Print Assumptions C12_retransmission_kept.
 
 Check C12_emit_packet.
